@@ -369,6 +369,12 @@ class Mini:
             if isinstance(obj, _Unbound):
                 raise AnalysisError(f"miniinterp: attribute of unbound {obj.name}")
             try:
+                import sympy as _sp
+                if isinstance(obj, _sp.Basic) and e.attr in ("real", "imag"):
+                    return _sp.re(obj) if e.attr == "real" else _sp.im(obj)
+            except ImportError:  # pragma: no cover
+                pass
+            try:
                 return getattr(obj, e.attr)
             except AttributeError as ex:
                 raise InterpRaise("AttributeError", str(ex), e)
